@@ -30,6 +30,15 @@ def gen_breaker_cfg(r: random.Random) -> dict:
     return cfg
 
 
+def maybe_sibling(r: random.Random, cfg: dict):
+    """sometimes a second breaker is configured from the very same trip_on set object"""
+    if cfg.get("trip_on") is not None and r.random() < 0.2:
+        others = [c for c in COUNTABLE if c not in cfg["trip_on"] and c not in cfg["class_thresholds"]]
+        if others:
+            return {"when": r.choice(["before", "after", "after"]), "class_thresholds": {c: r.choice([1, 2]) for c in r.sample(others, min(len(others), r.randint(1, 2)))}}
+    return None
+
+
 def _adv(r: random.Random, cfg: dict) -> int:
     w, R = cfg["window_us"], cfg["recovery_us"]
     x = r.random()
@@ -87,6 +96,7 @@ def gen_policy_history(seed: int, knobs: dict, modes=("sync",), concurrent=False
            "budget": None, "breaker": to_policy_breaker_cfg(bc)}
     classes = sorted(set((bc.get("trip_on") if bc.get("trip_on") is not None else ["TRANSIENT", "SERVER_ERROR"])) | set(bc["class_thresholds"]))
     calls = []
+    handler = r.random() < 0.3
     for i in range(n_calls):
         entry = r.choice(["Policy", "Policy", "Policy.noretry", "Policy.context"])
         how = "call" if entry == "Policy.context" else r.choice(["call", "execute"])
@@ -101,6 +111,8 @@ def gen_policy_history(seed: int, knobs: dict, modes=("sync",), concurrent=False
                 atts.append({"kind": kind, "cls": cls, "dur": r.choice([0, U, 2 * U])})
         c = {"entry": entry, "how": how, "attempts": atts, "values": [r.choice([0, U, 2 * U])], "overshoot": [0],
              "decisions": [], "abort_at": None}
+        if handler and r.random() < 0.5:
+            c["decisions"] = ["S"] * r.randint(0, 1) + [r.choice(["D", "A", "S"])]
         if r.random() < knobs.get("p_abort", 0.12):
             c["abort_at"] = r.randint(0, 3)
         if concurrent:
@@ -111,7 +123,7 @@ def gen_policy_history(seed: int, knobs: dict, modes=("sync",), concurrent=False
                 c["before"].append(r.choice([["fail", r.choice(classes or COUNTABLE)], ["allow"], ["success"], ["cancel"]]))
         calls.append(c)
     scn = {"kind": "retry", "grid": U, "seed": seed, "mode": mode, "entry": "Policy", "how": "call", "cfg": cfg,
-           "place": {"handler": "none", "before_sleep": "none", "sleeper": "policy", "att_hooks": "none"},
+           "place": {"handler": "call" if handler else "none", "before_sleep": "none", "sleeper": "policy", "att_hooks": "none"},
            "hooks": {"on_metric": r.random() < 0.5, "on_log": False, "operation": None, "timeline": None, "abort_if": True},
            "clock": {"base_us": r.choice([0, 8 * U, 1024 * U])}, "calls": calls}
     if concurrent:
@@ -141,6 +153,8 @@ def refine_policy_log(scn: dict, trace: list, owner: str):
     states = set()
     probe_owner = None   # call admitted as the half-open probe, result not yet recorded
     released_by_stray = None
+    probe_calls = {}     # call admitted as half-open probe -> its own breaker records
+    since_close = False
     stray = []           # records made by calls that were never admitted / already settled
     for e in trace:
         ev = e["ev"]
@@ -150,6 +164,19 @@ def refine_policy_log(scn: dict, trace: list, owner: str):
                 out.append(V("R2", "operation invoked although the breaker refused the call", {"call": cid, "t": e["t"]}))
             continue
         if ev == "CALL_END":
+            if owner == "C07" and cid in probe_calls:
+                # "a successful probe closes the circuit ...; a failed probe re-opens it with a fresh timeout"
+                recs = probe_calls.pop(cid)
+                cancelled = (e["how"] == "raise" and e["exc"]["type"] in ("AbortRetryError", "KeyboardInterrupt", "SystemExit", "CancelledError", "GeneratorExit")) or \
+                            (e["how"] == "outcome" and e["out"]["stop_reason"] == "ABORTED")
+                succeeded = e["how"] == "return" or (e["how"] == "outcome" and e["out"]["ok"])
+                if not cancelled and recs:
+                    last = recs[-1]
+                    if succeeded and (last["m"] != "record_success" or last["state"] != "closed") and last["before"] == "half_open":
+                        out.append(V("R4", "successful probe did not close the circuit", {"call": cid, "record": last}))
+                    if not succeeded and last["before"] == "half_open" and (last["m"] != "record_failure" or last["state"] != "open"):
+                        out.append(V("R4", "failed probe did not re-open the circuit", {"call": cid, "record": {k: last[k] for k in ("m", "state", "before", "t")},
+                                                                                       "ending": e["exc"]["type"] if e["how"] == "raise" else e["out"]["stop_reason"]}))
             if probe_owner == cid:
                 probe_owner = None
             if owner == "C07" and cid in refused:
@@ -171,6 +198,7 @@ def refine_policy_log(scn: dict, trace: list, owner: str):
                 if e["ret"]:
                     outstanding[cid] = True
                     if e["state"] == "half_open":
+                        probe_calls[cid] = []
                         if owner == "C07" and probe_owner is not None and probe_owner != cid and released_by_stray is not None:
                             out.append(V("R3", "second probe admitted while the first probe call is still in flight",
                                          {"first_probe_call": probe_owner, "second_probe_call": cid, "t": now,
@@ -189,6 +217,8 @@ def refine_policy_log(scn: dict, trace: list, owner: str):
             exp = {"ret": model.record_cancel(now), "state": model.state}
             got = {"ret": e["ret"], "state": e["state"]}
         states.add((before, m, model.state, model.probe))
+        if m != "allow" and cid in probe_calls:
+            probe_calls[cid].append({"m": m, "state": e["state"], "before": before, "t": now})
         if m != "allow":
             if cid is None or cid == probe_owner:
                 probe_owner = None
